@@ -36,8 +36,8 @@ schedule
     ``{"order": perm}`` (explicit delivery order of job indices) or a callable
     ``spec(n, jobs) -> perm`` (e.g. longest-first by some job attribute).  While it
     is installed the schedule records one ``SiteRecord`` per site in ``.trace``
-    (sequence number, n jobs, return_as, the menus seen, the choices taken, the
-    delivery order) so that an explorer can enumerate the neighbouring schedules.
+    (sequence number, n jobs, return_as, label = name of the job function, the menus
+    seen, the choices taken, the delivery order) so that an explorer can enumerate the neighbouring schedules.
 
 Execution model of ``VirtualParallel``
 --------------------------------------
@@ -271,6 +271,7 @@ class SiteRecord:
     n_jobs: Any
     has_menu: bool  # generator_unordered, parallel backend, top level
     nested: bool = False
+    label: str | None = None  # name of the innermost job function of the first job (names the call site)
     backend: str = "virtual"  # or "real"
     menus: list = field(default_factory=list)  # tuple of pending indices per delivery point
     choices: list = field(default_factory=list)  # choice taken per delivery point
@@ -286,7 +287,7 @@ class SiteRecord:
         return (self.seq, self.n, self.return_as)
 
     def to_json(self) -> dict:
-        return {"seq": self.seq, "n": self.n, "return_as": self.return_as, "n_jobs": self.n_jobs,
+        return {"seq": self.seq, "n": self.n, "return_as": self.return_as, "n_jobs": self.n_jobs, "label": self.label,
                 "has_menu": self.has_menu, "nested": self.nested, "backend": self.backend,
                 "choices": list(canon_choices(self.choices)), "order": list(self.order),
                 "intended": self.intended, "completed": self.completed, "achieved": self.achieved,
@@ -431,7 +432,8 @@ class Schedule:
         return f"Schedule({self.per_site!r}, default={self.default!r}, pickle={self.pickle}, mode={self.mode!r})"
 
     # -- internals used by the Parallel stand-ins ---------------------------
-    def _open_site(self, n: int, return_as: str, n_jobs, backend: str, parallel_backend: bool) -> SiteRecord:
+    def _open_site(self, n: int, return_as: str, n_jobs, backend: str, parallel_backend: bool,
+                   label: str | None = None) -> SiteRecord:
         nested = self._depth > 0
         seq = None
         if not nested:
@@ -439,9 +441,26 @@ class Schedule:
             self._next_seq += 1
         rec = SiteRecord(seq=seq, n=n, return_as=return_as, n_jobs=n_jobs, nested=nested,
                          has_menu=(return_as == "generator_unordered" and parallel_backend and not nested),
-                         backend=backend)
+                         backend=backend, label=label)
         self.trace.append(rec)
         return rec
+
+
+def job_label(jobs) -> str | None:
+    """Name of the function the first job of a site really runs: wrappers that carry the
+    actual (func, args, kwargs) job among their arguments (parallel()'s index tagging,
+    _dict_job) are looked through."""
+    if not jobs:
+        return None
+    job = jobs[0]
+    for _ in range(4):
+        inner = [a for a in tuple(job[1]) + tuple(job[2].values())
+                 if isinstance(a, tuple) and len(a) == 3 and callable(a[0]) and isinstance(a[2], dict)]
+        if not inner:
+            break
+        job = inner[0]
+    f = job[0]
+    return getattr(f, "__name__", None) or getattr(f, "__qualname__", None) or type(f).__name__
 
 
 def _check_perm(order, n: int) -> list:
@@ -648,7 +667,7 @@ class VirtualParallel:
                 raise TypeError(f"job is not a (func, args, kwargs) tuple: {j!r}")
         n = len(jobs)
         parallel_backend = self.n_jobs not in (None, 1)
-        rec = sched._open_site(n, self.return_as, self.n_jobs, "virtual", parallel_backend)
+        rec = sched._open_site(n, self.return_as, self.n_jobs, "virtual", parallel_backend, job_label(jobs))
         prefix = sched.resolve(rec.seq, n, jobs, rec.has_menu)
         use_pickle = sched.pickle and parallel_backend
         if use_pickle:
@@ -796,7 +815,7 @@ class RealParallel:
         jobs = list(iterable)
         n = len(jobs)
         parallel_backend = self.n_jobs not in (None, 1)
-        rec = sched._open_site(n, self.return_as, self.n_jobs, "real", parallel_backend)
+        rec = sched._open_site(n, self.return_as, self.n_jobs, "real", parallel_backend, job_label(jobs))
         # on the real backend the *completion* order can be forced on ordered sites too
         prefix = sched.resolve(rec.seq, n, jobs, has_menu=parallel_backend and not rec.nested)
         order = choices_to_order(prefix, n)
